@@ -426,3 +426,49 @@ Definition id_case_ok (g : gencond) (c : idcase) : bool :=
   let (key, wire) := send_ids g (id_shape (ic_form c) (ic_chosen c)) 1000 2000 in
   Bool.eqb (N.eqb key wire) (ic_key_is_wire c) &&
   Bool.eqb (N.eqb wire (ic_chosen c)) (ic_wire_is_chosen c).
+
+(* ====================================================================== *)
+(* 5. Receipts behind the multiplexer: receipts.Handle registers the        *)
+(*    handler per message type; a receipt reaches HandleMessage only if     *)
+(*    its (normalised) type is registered                                   *)
+(* ====================================================================== *)
+
+From XV Require Import C06.ModelExt.
+
+(* message types as numbers: 0 normal (also: absent / unknown, which the mux
+   maps to normal), 1 chat, 2 groupchat, 3 headline, 4 error *)
+Definition norm_mtype (t : N) : N := if N.ltb t 5 then t else 0%N.
+
+Inductive rxrlabel :=
+| RL (l : rxlabel)                 (* a step of the receipts system other than an arrival *)
+| RArrive (ty : N) (id : N)        (* a receipt of message type ty is routed to HandleMessage *)
+| RUnrouted (ty : N) (id : N).     (* ... has no handler registered: it reaches neither HandleMessage nor Unhandled *)
+
+Definition rxr_step (routed : N -> bool) (s : rxstate) (l : rxrlabel) : option rxstate :=
+  match l with
+  | RL (XArrive _) => None
+  | RL l' => rx_step true s l'
+  | RArrive ty id => if routed (norm_mtype ty) then rx_step true s (XArrive id) else None
+  | RUnrouted ty id => if routed (norm_mtype ty) then None else Some s
+  end.
+
+(* forget the routing: the underlying schedule of the receipts system *)
+Fixpoint rxr_project (tr : list rxrlabel) : list rxlabel :=
+  match tr with
+  | [] => []
+  | RL l :: r => l :: rxr_project r
+  | RArrive _ id :: r => XArrive id :: rxr_project r
+  | RUnrouted _ _ :: r => rxr_project r
+  end.
+
+Definition routes_all (t : N) : bool := true.
+(* the registration with headline left out *)
+Definition routes_without_headline (t : N) : bool := negb (N.eqb t 3).
+
+Record rxrcase := mkrxrcase { rr_trace : list rxrlabel; rr_codes : list xcode; rr_unhandled : nat }.
+
+Definition rxr_case_ok (routed : N -> bool) (c : rxrcase) : bool :=
+  match run (rxr_step routed) rx_init (rr_trace c) with
+  | Some s => list_eqb xcode_eqb (map snd_code (rx_snd s)) (rr_codes c) && Nat.eqb (rx_unhandled s) (rr_unhandled c)
+  | None => false
+  end.
